@@ -16,7 +16,7 @@ import (
 // Fault says who misbehaves, where in its protocol, how, and during which invocation (1-based).
 type Fault struct {
 	Who    string // runtime | ext0 | ext1
-	Point  string // runtime: launch before-next init-error after-next after-response idle ; ext: launch before-register after-register init-error exit-error after-event idle
+	Point  string // runtime: launch before-next init-error after-next after-response idle ; ext: launch before-register after-register init-error exit-error-init exit-error after-event idle
 	Action string // stall exit0 exit1 sig9 (launch: enoent eacces)
 	At     int    // invocation during which the fault strikes (1 = first, includes initialisation)
 }
@@ -37,10 +37,15 @@ type Scen struct {
 	OnTermRt string // runtime's SIGTERM policy in the faulty generation
 	OnTermEx string
 	NInv     int
+	SlowRt   bool // the runtime takes 300 ms to answer (so that an extension's fault lands before the response)
 }
 
 func (s Scen) Name() string {
-	return fmt.Sprintf("ext=%d fault=%s rtTerm=%s exTerm=%s", s.NExt, s.F, orDie(s.OnTermRt), orDie(s.OnTermEx))
+	n := fmt.Sprintf("ext=%d fault=%s rtTerm=%s exTerm=%s", s.NExt, s.F, orDie(s.OnTermRt), orDie(s.OnTermEx))
+	if s.SlowRt {
+		n += " slowRuntime"
+	}
+	return n
 }
 
 func orDie(s string) string {
@@ -95,7 +100,7 @@ func (s Scen) Config() *stack.Config {
 	f := s.F
 	mineRt := func(rt *stack.Actor) bool { return f != nil && f.Who == "runtime" && rt.Gen == 1 }
 	if f != nil && f.Who == "runtime" && f.Point == "launch" {
-		cfg.RuntimeStartErr = launchErr(f.Action)
+		cfg.RuntimeStartErr = launchErr(f.Action) // persistent: a missing / non-executable program stays so
 	}
 	if f != nil && f.Who == "runtime" {
 		cfg.RuntimeOnTerm = s.OnTermRt
@@ -118,6 +123,9 @@ func (s Scen) Config() *stack.Config {
 			k++
 			if mine && f.Point == "after-next" && k == f.At {
 				act(rt, f.Action)
+			}
+			if s.SlowRt {
+				rt.Sleep(300 * time.Millisecond)
 			}
 			if c := rt.Response(n.ReqID, n.Body); c.Status != 202 {
 				rt.Stall()
@@ -159,7 +167,7 @@ func (s Scen) Config() *stack.Config {
 				x.ExtInitError("Extension.BadInit")
 				act(x, f.Action)
 			}
-			if mine && f.Point == "exit-error" && f.At == 1 {
+			if mine && f.Point == "exit-error-init" {
 				x.ExtExitError("Extension.BadExit")
 				act(x, f.Action)
 			}
@@ -176,7 +184,7 @@ func (s Scen) Config() *stack.Config {
 				if mine && f.Point == "after-event" && k == f.At {
 					act(x, f.Action)
 				}
-				if mine && f.Point == "exit-error" && f.At > 1 && k == f.At-1 {
+				if mine && f.Point == "exit-error" && k == f.At {
 					x.ExtExitError("Extension.BadExit")
 					act(x, f.Action)
 				}
